@@ -191,3 +191,32 @@ def t_edit(E):
     E.prove("C06.MaskCombinator.edit.bwd_restores_when_the_flag_is_unchanged", E.Implies(E.eq(pre, post), restored))
     E.prove("C06.MaskCombinator.edit.bwd_restores_across_a_flag_flip", E.Implies(E.Not(E.eq(pre, post)), restored))
     E.refutable("mask.edit", E.eq(w, SReal(T.edit_w(g.t, ik, itr, irq, iad))))
+
+
+@task("mask.nested", props=["C14", "C23"], functions=FUNCS)
+def t_nested(E):
+    """a masked call whose callee itself returns a mask (mask of mask): the outer flag still decides - the returned mask is
+    valid iff BOTH flags are true, its value is the innermost return value, score and choices are masked by both.
+    (The abstract callee G never returns a Mask - theory/gfi.py - so the case is stated on the real MaskTrace of a real
+    MaskCombinator over G as the inner trace.)"""
+    T = E.I.T
+    mc_in, g = combinator(E)
+    mc_out = E.new(M + ":MaskCombinator", gen_fn=mc_in)
+    f_in, f_out = E.flag("inner_check"), E.flag("outer_check")
+    base = T.abstract_trace("innermost", g=g.t)
+    mid = E.call(M + ":MaskTrace.build", mc_in, base, f_in)
+    out = E.call(M + ":MaskTrace.build", mc_out, mid, f_out)
+    ret = E.method(out, "get_retval")
+    E.cover("mask.nested.reached")
+    E.require("C14.MaskTrace.build.of_a_masked_callee.returns_a_mask", isinstance(ret, Obj) and ret.cls.name == "Mask")
+    both = E.And(f_in, f_out)
+    E.prove("C14.MaskTrace.build.of_a_masked_callee.valid_iff_both_flags_are_true", E.z(E.I.mask_flag(ret)) == E.z(both))
+    E.prove("C14.MaskTrace.build.of_a_masked_callee.false_outer_flag_gives_an_invalid_mask",
+            E.Implies(E.Not(f_out), E.Not(E.z(E.I.mask_flag(ret)))))
+    val = ret.fields["value"]
+    E.prove("C14.MaskTrace.build.of_a_masked_callee.value_is_the_innermost_return_value",
+            E.Implies(both, E.And(not (isinstance(val, Obj) and val.cls.name == "Mask"), E.eq(val, E.method(base, "get_retval")))))
+    E.prove("C14.MaskTrace.build.of_a_masked_callee.score_and_choices_masked_by_both_flags", E.And(
+        E.eq(E.method(out, "get_score"), SReal(E.z3.If(E.z(both), T.tr_score(base.t), 0))),
+        E.eq(E.method(out, "get_choices"), UVal(E.z3.If(E.z(both), T.tr_choices(base.t), T.EMPTY), "ChoiceMap"))))
+    E.refutable("mask.nested", E.eq(E.method(base, "get_score"), 0.0))     # (a canary no code under check can make true)
